@@ -53,8 +53,8 @@ MANIFEST_TEXT = (
     'input forms; every text of <= 3 (quick) / 4 (thorough) characters over a 6-symbol sub-alphabet (incl. lower case '
     'and non-letter symbols) in every layout of 1..3 rows, and the same with one foreign character of each class at '
     'every position (must raise); every ordered pair of alphabets (+ASCII target) x every text of <= 3 / 4 characters '
-    'over the full source alphabet x flat / scalar / ragged layouts through as_encoded_array and change_encoding '
-    '(same text or raises, never other letters); the three numeric offset encodings over all 256 bytes.')
+    '(3 for the 21- and 16-symbol alphabets) over the full source alphabet x flat / scalar / ragged layouts through '
+    'as_encoded_array, change_encoding and target.encode (same text or raises, never other letters); the three numeric offset encodings over all 256 bytes.')
 MANIFEST_NOTE = ('Trusted: NumPy, CPython, engine/observe.py, the alphabets as written in models/alphabets.py. '
                  'Exception classes and raw code values are not judged.')
 
@@ -215,7 +215,7 @@ def _group_forms(failing, executed):
     out = []
     for kind in sorted(failing):
         d = failing[kind]
-        if len(d) == len(executed) and len(executed) > 1:
+        if len(d) == len(executed):
             f0 = executed[0]
             out.append((kind, 'all', d[f0][0], {f: d[f][1] for f in executed}, d[f0][2]))
         else:
@@ -515,13 +515,13 @@ def bounds(tier, seed):
         'strings_max_chars': 3 if quick else 4, 'strings_max_rows': MAX_ROWS,
         'strings_sub_alphabets': dict(A.SUB_ALPHABET),
         'foreign_classes': list(A.FOREIGN_CLASSES),
-        'retarget_max_chars': 3 if quick else 4,
+        'retarget_max_chars': '3' if quick else '4 (alphabets of > 10 symbols, i.e. amino acids and BAM 4-bit: 3)',
         'retarget_targets': TARGETS,
         'retarget_layouts': (
             'core: flat, 0-d scalar (1 char), ragged [1,n-1]; extension slice for texts <= 2 chars: ragged [n] and '
             'ragged [k,n-k] with k=(VERIF_SEED mod (n+1))' if quick else
             'texts <= 3 chars: flat, scalar, ragged [n], every 2-row split, [1,..,1]; 4 chars: flat, ragged [4], '
-            'ragged [2,2] (alphabets > 10 symbols: flat only)'),
+            'ragged [2,2]'),
         'numeric': 'all 256 bytes x 3 offset encodings x contexts x 7 input forms',
         'input_forms': [n for n, _, _ in FORMS],
     }
@@ -594,7 +594,7 @@ def unit_cases(unit, tier, seed):
                 yield {'part': 'retarget', 'source': src, 'target': tgt, 'text': '',
                        'layouts': ['flat', [0], [0, 0]]}
             return
-        for n in range(1, L + 1):
+        for n in range(1, (3 if big else L) + 1):
             for rest in itertools.product(alpha, repeat=n - 1):
                 text = alpha[fi] + ''.join(rest)
                 layouts = retarget_layouts(n, quick, seed, big)
@@ -620,12 +620,11 @@ def retarget_layouts(n, quick, seed, big):
         out.append([n])
         for k in range(n + 1):
             out.append([k, n - k])
-        if n >= 2:
+        if n >= 3:
             out.append([1] * n)
         return out
-    if not big:
-        out.append([n])
-        out.append([2, n - 2])
+    out.append([n])
+    out.append([2, n - 2])
     return out
 
 
@@ -657,7 +656,7 @@ def unit_cost(unit, tier, seed):
         if fi is None:
             return 10 * len(targets)
         tot = 0
-        for n in range(1, L + 1):
+        for n in range(1, (3 if a > 10 else L) + 1):
             tot += a ** (n - 1) * len(retarget_layouts(n, quick, seed, a > 10)) * 3 * len(targets)
         return tot
     raise ValueError(unit)
